@@ -81,7 +81,16 @@ CheckWeq(e) ==
 \* form chains, rings and tails into rings, with and without `id` tags: what it answers is not specified here, that it answers is
 CheckRel(e) == Need(e.truth \in {"T", "F"}, "C09", <<"evaluation of a relationship term with a cyclic resolver", e.truth>>)
 
+\* `a *== @target` / `containedBy? @target` from a record whose ref starts a chain n0 -> n1 -> ... -> n(N-1) of N records without a
+\* cycle; the last one refers to @target iff e.hit. Evaluation must answer however long the chain is (a process that dies of
+\* stack exhaustion gives no answer), and for `*==` the answer is whether the chain reaches the target.
+CheckChain(e) ==
+    Need(e.truth \in {"T", "F"}, "C09", <<"evaluation over a long chain of refs without a cycle", e.kind, e.n, e.truth>>)
+    \o (IF e.kind = "weq" /\ e.truth \in {"T", "F"}
+        THEN Need(e.truth = (IF e.hit THEN "T" ELSE "F"), "C07", <<"*== over a long ref chain", e.n, e.truth>>) ELSE <<>>)
+
 Check(e) == CASE e.op = "filter.parse" -> CheckParse(e)
+              [] e.op = "filter.chain" -> CheckChain(e)
               [] e.op = "filter.rel" -> CheckRel(e)
               [] e.op = "filter.text" -> CheckText(e)
               [] e.op = "filter.eval" -> CheckEval(e)
